@@ -241,9 +241,11 @@ def r11_2(ctx):
                 for o in outs:
                     if isinstance(o, Rat) and (nf.all_atoms(o) & res_atoms):
                         again = True
-            ent = seen.setdefault(key, dict(fi=fi, node=node, again=False, cells=[]))
+            ent = seen.setdefault(key, dict(fi=fi, node=node, again=False, cells=[], cg_values=set()))
             ent["again"] = ent["again"] or again
             ent["cells"].append(cell)
+            # the value create_graph evaluated to, per grad mode of the scenario (name-free)
+            ent["cg_values"].add((cell.endswith("grad=on"), c["kwargs"].get("create_graph", False)))
     for (fkey, dg), ent in sorted(seen.items()):
         fi, node = ent["fi"], ent["node"]
         rep.analysed(fi)
@@ -253,8 +255,9 @@ def r11_2(ctx):
         rep.check(ok_au, "R11.2", astq.loc(fi, node), f"{fkey}::R11.2::allow_unused::{dg}",
                   f"`{ast.unparse(node)[:70]}...` lacks allow_unused=True: a parameter the SDE does not use would raise "
                   f"instead of receiving a zero gradient", "allow_unused=True")
-        lit_true = isinstance(cg, ast.Constant) and cg.value is True
-        from_mode = isinstance(cg, ast.Name) and cg.id == "requires_grad"
+        vals = ent["cg_values"]
+        lit_true = bool(vals) and all(v is True for _, v in vals)
+        from_mode = bool(vals) and all(v is mode for mode, v in vals) and {m for m, _ in vals} == {True, False}
         if ent["again"]:
             rep.check(lit_true, "R11.2", astq.loc(fi, node), f"{fkey}::R11.2::create_graph::{dg}",
                       f"`{ast.unparse(node)[:70]}...`: its result is differentiated again by a later autograd call, so it "
@@ -350,17 +353,30 @@ def r11_5(ctx):
               f"get_state asserts {asserts}; it must assert that t, y_aug and v are leaves (else autograd.grad walks back "
               f"into the solver's history)", "asserts t, y_aug, v leaves")
     rets = [n for n in own_nodes(gs.node) if isinstance(n, ast.Return)]
-    cap = [v for _, v in astq.assignments_to(gs, "requires_grad")]
-    ok = len(rets) == 1 and isinstance(rets[0].value, ast.Tuple) and ast.unparse(rets[0].value.elts[-1]) == "requires_grad" \
-        and len(cap) == 1 and cap[0] is not None and ast.unparse(cap[0]) == "torch.is_grad_enabled()"
+    ok = False
+    mode_name = None
+    if len(rets) == 1 and isinstance(rets[0].value, ast.Tuple) and isinstance(rets[0].value.elts[-1], ast.Name):
+        mode_name = rets[0].value.elts[-1].id
+        cap = [v for _, v in astq.assignments_to(gs, mode_name)]
+        ok = len(cap) == 1 and cap[0] is not None and ast.unparse(cap[0]) == "torch.is_grad_enabled()"
+        # captured before any enable_grad block of this function
+        for n in own_nodes(gs.node):
+            if isinstance(n, ast.With) and any("enable_grad" in ast.unparse(i.context_expr) for i in n.items):
+                asg = [t for t, _ in astq.assignments_to(gs, mode_name)]
+                ok = ok and all(getattr(a, "lineno", 0) < n.lineno for a in asg)
     rep.check(ok, "R11.5", astq.loc(gs), f"{gs.key}::R11.5::grad-mode",
               "get_state does not return torch.is_grad_enabled() (captured before any enable_grad) as its last element",
               "returns the captured grad mode")
     det_calls = [n for n in own_nodes(gs.node) if isinstance(n, ast.Call) and isinstance(n.func, ast.Attribute)
                  and n.func.attr == "detach"]
-    ok = len(det_calls) == 1 and ("y.requires_grad", False) in astq.facts_at(gs, det_calls[0])
+    ok = False
+    if len(det_calls) == 1 and isinstance(det_calls[0].func.value, ast.Name):
+        yname = det_calls[0].func.value.id          # the state block being leafified, whatever it is called
+        first = rets[0].value.elts[0] if rets and isinstance(rets[0].value, ast.Tuple) else None
+        ok = (f"{yname}.requires_grad", False) in astq.facts_at(gs, det_calls[0]) and \
+            isinstance(first, ast.Name) and first.id == yname
     rep.check(ok, "R11.5", astq.loc(gs), f"{gs.key}::R11.5::leafify",
-              "get_state detaches y other than under `not y.requires_grad`", "leafify only when y has no graph")
+              "get_state detaches the state block other than under `not <state>.requires_grad`", "leafify only when y has no graph")
     # forward of the autograd.Function
     fwd = model.func(ADJOINT, "_SdeintAdjointMethod.forward")
     rep.analysed(fwd)
